@@ -26,6 +26,7 @@ import (
 	"github.com/ajitpratap0/GoSQLX/pkg/sql/parser"
 
 	"verif/internal/core"
+	"verif/internal/gram"
 	"verif/internal/project"
 	"verif/internal/stmts"
 )
@@ -105,6 +106,9 @@ func main() {
 	} else if err := os.WriteFile(in, []byte(strings.Join(cases, "\n")), 0o644); err != nil {
 		core.Fatalf("%v", err)
 	}
+	// the pools also hold a sample of Select.tla's statement forms
+	run.Extra["model_statements_in_pools"] = gram.ExportForms(run)
+	defer os.Remove(os.Getenv("VERIF_EXTRA_STMTS"))
 	res := run.RunChild([]string{"--child", in}, dir+"/out.json", 20*time.Minute)
 	if res.TimedOut {
 		run.Violate(core.Violation{Sig: "recovery-hang", Clause: "recovery-mode parsing terminates on every input", Case: map[string]any{"text": res.Progress}})
